@@ -642,24 +642,19 @@ func (c *Check) scanOrder(rule string) {
 		}
 		// the read that counts is the scan that drives the new-batch handler (an earlier peek "is anything due at all" decides
 		// nothing about which batches are started): it follows the handling of the expired batches
+		// — the last read of the new-batch queue on the path (the scan itself, or the call that gathers its entries)
 		iScanNB := -1
 		for i, ev := range pa.Events {
 			if ev.Kind != EvCall {
 				continue
 			}
 			for _, e := range c.P.effectsOfEvent(f, ev) {
-				drives := e.Fn == u.NB.Closure
-				for _, nm := range e.Chain {
-					if nm == u.NB.Closure.Name {
-						drives = true
-					}
-				}
-				if drives && iScanNB < 0 {
+				if e.Kind == "store" && e.Op == "Iter" && e.Family == "0x10" {
 					iScanNB = i
 				}
 			}
 		}
-		if iScanNB < 0 && !c.someonePathDrivesNB(f, u) {
+		if iScanNB < 0 {
 			iScanNB = i10
 		}
 		if iHandled < 0 {
